@@ -86,6 +86,8 @@ def run_path(fn, params, prefix, step_budget, solver_timeout_ms, profile=False):
         status, msg = "unwound", "wall-clock watchdog: %s" % e
     except core.Stop:
         status = "ok"
+    except core.UnitMissing as e:
+        status, msg = "skipped", "private entry point not present in this tree: %s" % e
     except core.OutOfBound as e:
         status, msg = "abort", "outside-bound: " + str(e)
     except core.PathAbort as e:
@@ -122,7 +124,7 @@ def explore_chunk(modname, obname, scen_idx, prefixes, tier, chunk_s, max_paths,
     params = ob.scenarios[scen_idx]
     t0 = time.time()
     work = list(prefixes)
-    st = dict(paths=0, ok=0, abort=0, unsupported=0, unwound=0, error=0, queries=0, solver_s=0.0,
+    st = dict(paths=0, ok=0, abort=0, unsupported=0, unwound=0, error=0, skipped=0, queries=0, solver_s=0.0,
               requires=0, discharged=0, trivial=0, nontrivial_paths=0, violations=[], msgs={},
               cover={}, samples=[], funcs=[], forks={}, max_depth=0)
     first = True
@@ -168,7 +170,7 @@ def explore_chunk(modname, obname, scen_idx, prefixes, tier, chunk_s, max_paths,
                                           "witness_input": dict(list(mv.items())[:24])})
         if status == "abort" and msg.startswith("outside-bound"):
             st["msgs"][msg[:200]] = st["msgs"].get(msg[:200], 0) + 1
-        if status in ("unsupported", "unwound", "error"):
+        if status in ("unsupported", "unwound", "error", "skipped"):
             k = "%s: %s" % (status, msg.strip().splitlines()[-1][:300] if msg.strip() else "")
             st["msgs"][k] = st["msgs"].get(k, 0) + 1
             if status == "error" and len(st["msgs"]) < 3:
@@ -246,7 +248,7 @@ def run_obligations(modname, tier, workers=None, only=None, log=print, is_known=
                 try:
                     st = f.result()
                 except Exception as e:
-                    st = dict(paths=0, ok=0, abort=0, unsupported=0, unwound=0, error=1, queries=0, solver_s=0.0,
+                    st = dict(paths=0, ok=0, abort=0, unsupported=0, unwound=0, error=1, skipped=0, queries=0, solver_s=0.0,
                               requires=0, discharged=0, trivial=0, nontrivial_paths=0, violations=[],
                               msgs={"worker crashed: %r" % (e,): 1}, cover={}, samples=[], funcs=[], forks={},
                               max_depth=0, leftover=[], sources={})
@@ -280,10 +282,11 @@ def run_obligations(modname, tier, workers=None, only=None, log=print, is_known=
 def _merge(s, st, scen_idx):
     a = s["agg"]
     if a is None:
-        a = s["agg"] = dict(paths=0, ok=0, abort=0, unsupported=0, unwound=0, error=0, queries=0, solver_s=0.0,
+        a = s["agg"] = dict(paths=0, ok=0, abort=0, unsupported=0, unwound=0, error=0, skipped=0, queries=0, solver_s=0.0,
                             requires=0, discharged=0, trivial=0, nontrivial_paths=0, violations=[], msgs={},
                             cover={}, samples=[], funcs=set(), forks={}, max_depth=0, sources={},
                             scen_nontrivial={})
+    a["skipped"] += st.get("skipped", 0)
     for k in ("paths", "ok", "abort", "unsupported", "unwound", "error", "queries", "solver_s", "requires",
               "discharged", "trivial", "nontrivial_paths"):
         a[k] += st[k]
@@ -304,7 +307,7 @@ def _merge(s, st, scen_idx):
 
 def _finish(s):
     ob = s["ob"]
-    a = s["agg"] or dict(paths=0, ok=0, abort=0, unsupported=0, unwound=0, error=0, queries=0, solver_s=0.0,
+    a = s["agg"] or dict(paths=0, ok=0, abort=0, unsupported=0, unwound=0, error=0, skipped=0, queries=0, solver_s=0.0,
                          requires=0, discharged=0, trivial=0, nontrivial_paths=0, violations=[], msgs={},
                          cover={}, samples=[], funcs=set(), forks={}, max_depth=0, sources={}, scen_nontrivial={})
     reasons = []
@@ -326,6 +329,10 @@ def _finish(s):
         reasons.append("vacuity witness missing for: %s" % ", ".join(missing))
     if a["violations"]:
         verdict = "violated"
+    elif a.get("skipped") and not (a["unsupported"] or a["unwound"] or a["error"] or s["timed_out"]):
+        # the unit this obligation drives does not exist (under a known name) in this tree
+        verdict = "not-applicable"
+        reasons = [k for k in a["msgs"] if k.startswith("skipped")][:2]
     elif reasons:
         verdict = "inconclusive"
     else:
